@@ -260,6 +260,29 @@ def _ods_text(element, location):
     return result
 
 
+def _ods_repeat_count(element, attribute_name, location):
+    """
+    The value of the repeat count ``attribute_name`` of ``element`` (1 if there is none).
+
+    :raises cutplace.errors.DataFormatError: if the value is not a positive integer written with the digits 0 to 9
+    """
+    repeat_text = element.attrib.get(attribute_name, "1")
+    xml_attribute_name = "table:" + attribute_name.split("}")[-1]
+    stripped_repeat_text = repeat_text.strip()
+    digits = stripped_repeat_text[1:] if stripped_repeat_text.startswith("+") else stripped_repeat_text
+    # Note: int() would also accept "1_0", "\uff12" (fullwidth digit two) and the like.
+    if not (digits.isascii() and digits.isdigit()):
+        raise errors.DataFormatError(
+            "%s is %s but must be an integer" % (xml_attribute_name, _compat.text_repr(repeat_text)), location
+        )
+    result = int(stripped_repeat_text)
+    if result < 1:
+        raise errors.DataFormatError(
+            "%s is %s but must be at least 1" % (xml_attribute_name, _compat.text_repr(repeat_text)), location
+        )
+    return result
+
+
 def _ods_table_rows(parent_element):
     """
     The ``table:table-row`` elements of ``parent_element`` in document order
@@ -323,34 +346,10 @@ def ods_rows(source_ods_path, sheet=1):
     for _ in range(sheet - 1):
         location.advance_sheet()
     for table_row in _ods_table_rows(table_element):
-        rows_repeated_text = table_row.attrib.get(_NUMBER_ROWS_REPEATED, "1")
-        try:
-            rows_repeated_count = int(rows_repeated_text)
-        except ValueError:
-            raise errors.DataFormatError(
-                "table:number-rows-repeated is %s but must be an integer" % _compat.text_repr(rows_repeated_text),
-                location,
-            )
-        if rows_repeated_count < 1:
-            raise errors.DataFormatError(
-                "table:number-rows-repeated is %s but must be at least 1" % _compat.text_repr(rows_repeated_text),
-                location,
-            )
+        rows_repeated_count = _ods_repeat_count(table_row, _NUMBER_ROWS_REPEATED, location)
         row = []
         for table_cell in (element for element in table_row if element.tag in _TABLE_CELLS):
-            repeated_text = table_cell.attrib.get(_NUMBER_COLUMNS_REPEATED, "1")
-            try:
-                repeated_count = int(repeated_text)
-                if repeated_count < 1:
-                    raise errors.DataFormatError(
-                        "table:number-columns-repeated is %s but must be at least 1" % _compat.text_repr(repeated_text),
-                        location,
-                    )
-            except ValueError:
-                raise errors.DataFormatError(
-                    "table:number-columns-repeated is %s but must be an integer" % _compat.text_repr(repeated_text),
-                    location,
-                )
+            repeated_count = _ods_repeat_count(table_cell, _NUMBER_COLUMNS_REPEATED, location)
             text_ps = _findall(table_cell, "text:p", namespaces=_OOO_NAMESPACES)
             cell_value = "\n".join(_ods_text(text_p, location) for text_p in text_ps)
             row.extend([cell_value] * repeated_count)
